@@ -74,19 +74,22 @@ def main():
     rec["confirmed"] = confirmed
     check = {}
     if confirmed:
-        rc, out = sh("git -C /repo diff --quiet")
-        assert rc == 0, "/repo has local changes"
+        cw = f"/tmp/evc-{pid}-{tag}{i}"
+        co = f"/tmp/evc-{pid}-{tag}{i}.out"
+        sh(f"git -C /repo worktree remove --force {cw}")
+        rc, out = sh(f"git -C /repo worktree add --detach {cw} HEAD && git -C {cw} apply {patch}")
+        assert rc == 0, out
         try:
-            rc, out = sh(f"git -C /repo apply {patch}")
-            assert rc == 0, out
             t0 = time.time()
-            rc, out = sh(f"./check {pid} {tier}", cwd="/verif", timeout=3600)
-            check = {"cmd": f"./check {pid} {tier}", "exit": rc, "wall_s": round(time.time() - t0, 1),
-                     "violation_lines": [l for l in out.splitlines() if l.startswith("VIOLATION") or l.strip().startswith("signature:")][:12],
-                     "tail": out[-400:]}
-            ran.append(f"git -C /repo apply patch.diff; ./check {pid} {tier}; git -C /repo checkout -- .")
+            rc, out = sh(f"VERIF_REPO_DIR={cw} VERIF_OUT_DIR={co} ./check {pid} {tier}", cwd="/verif", timeout=3600)
+            check = {"cmd": f"./check {pid} {tier}  (against a scratch worktree of /repo carrying patch.diff)", "exit": rc, "wall_s": round(time.time() - t0, 1),
+                     "violation_lines": [l.replace(co, "<out>") for l in out.splitlines() if l.startswith("VIOLATION") or l.strip().startswith("signature:")][:12],
+                     "tail": out[-400:].replace(co, "<out>")}
+            ran.append(f"git worktree add <scratch> HEAD; git -C <scratch> apply patch.diff; VERIF_REPO_DIR=<scratch> ./check {pid} {tier}; git worktree remove <scratch>")
         finally:
-            sh("git -C /repo checkout -- . && git -C /repo clean -fdq")
+            sh(f"git -C /repo worktree remove --force {cw}")
+            shutil.rmtree(cw, ignore_errors=True)
+            shutil.rmtree(co, ignore_errors=True)
     shutil.copy(patch, f"{dest}/patch.diff")
     shutil.copy(demo, f"{dest}/{os.path.basename(demo)}")
     m = {"property": pid, "origin": "independent sub-agent given only the property text and a scratch worktree",
